@@ -701,6 +701,39 @@ def bounded_expansion(tier, seed):
             b.case()
             if k1 != k2:
                 b.violation("partial-name", f"have_name_containing({glob!r}) -> {k1}; its regex translation -> {k2}", dict(case="partial", glob=glob, verb=verb))
+    # ... and equals the rule that NAMES the modules the partial name denotes (literal text, '*' at either end only); look-alike siblings (r.a_x next to r.a.x) included
+    from .projects import glob_matches
+    mods2 = ["r", "r.a", "r.a.x", "r.a_x", "r.ab", "r.ab.x", "r.b", "r.c"]
+    for imports2 in ([("r.a_x", "r.b")], [("r.a.x", "r.b")], [("r.ab.x", "r.b"), ("r.c", "r.a_x")], [("r.b", "r.a.x"), ("r.b", "r.ab")]):
+        arch2 = build_arch(mods2, imports2)
+        for glob in ("r.a.x", "r.a", "*a.x", "*.x", "r.a*", "*a*", "*a_x", "r.a.*", "*b", "r.zz", "*zz*"):
+            exp = [m for m in mods2 if glob_matches(glob, m)]
+            for side in ("subject", "object"):
+                for verb, imp, exc in SHAPES:
+                    other = [("name", "r.b" if side == "subject" else "r.c")]
+                    with warnings.catch_warnings():
+                        warnings.filterwarnings("ignore")
+                        S1, O1 = ([("partial", glob)], other) if side == "subject" else (other, [("partial", glob)])
+                        k1 = outcome(make_rule(S1, verb, imp, exc, O1), arch2)
+                    if exp:
+                        S2, O2 = ([("name", m) for m in exp], other) if side == "subject" else (other, [("name", m) for m in exp])
+                        k2 = outcome(make_rule(S2, verb, imp, exc, O2), arch2)
+                    else:
+                        k2 = ("error", "ImpossibleMatch")
+                    b.case()
+                    if k1[0] != k2[0] or (not exp and k1 != k2):
+                        b.violation("partial-name", f"imports {imports2}: have_name_containing({glob!r}) on the {side} side ({verb}, import={imp}, except={exc}) -> {k1}; naming the modules it denotes {exp} -> {k2}",
+                                    dict(case="partial", glob=glob, verb=verb))
+        # a batch of partial names one of which denotes no module: ImpossibleMatch, never a verdict
+        for side in ("subject", "object"):
+            with warnings.catch_warnings():
+                warnings.filterwarnings("ignore")
+                dead = [("partial", "r.a*"), ("partial", "zz*")]
+                S1, O1 = (dead, [("name", "r.b")]) if side == "subject" else ([("name", "r.b")], dead)
+                k1 = outcome(make_rule(S1, "should_not", True, False, O1), arch2)
+            b.case()
+            if k1 != ("error", "ImpossibleMatch"):
+                b.violation("partial-name", f"batch of partial names ['r.a*', 'zz*'] ({side}; the second denotes no module) -> {k1}, not ImpossibleMatch", dict(case="partial", glob="zz*", verb="should_not"))
     return b.result()
 
 
